@@ -39,7 +39,12 @@ def descending_ranges():
     return out
 
 
-HAND_CANON = ["[a-c]-a", "[0-9]-[0-9]", "[a-c]-", "a-b", "[a\\x2D]", "-?[0-9]+(\\.[0-9]+)?", "[A-Za-z_][0-9A-Za-z_]*",
+# every category name of the documented unicode_category rule, in both polarities, alone, in a group, nested
+CATEGORIES = ("Math Emoji Latin Greek Cyrillic Han Persian Letter Lu Ll Lt Lm Lo L Mark Mn Mc Me M Number Nd Nl No N "
+              "Punctuation Pc Pd Ps Pe Pi Pf Po P Separator Zs Zl Zp Z Symbol Sm Sc Sk So S").split()
+CATEGORY_CANON = [f % c for c in CATEGORIES for f in ("\\p{%s}", "\\P{%s}", "[a\\p{%s}]", "(x|\\P{%s})+y")]
+
+HAND_CANON = CATEGORY_CANON + ["[a-c]-a", "[0-9]-[0-9]", "[a-c]-", "a-b", "[a\\x2D]", "-?[0-9]+(\\.[0-9]+)?", "[A-Za-z_][0-9A-Za-z_]*",
               "\"([\\x21\\x23-\\x5B\\x5D-\\x7E]|\\\\[\\x21-\\x7E])+\"", "(#|//)[\\x09\\x20-\\x7E]*|/\\*[\\x09\\x0A\\x0D\\x20-\\x7E]*?\\*/"]
 
 
